@@ -20,6 +20,21 @@ func init() {
 		defer func() { corruptionSeps = []string{" "} }()
 		// string lexemes containing spaces would be changed by the separator replacement; the corpus has none with spaces inside quotes except names, which is fine for a failure sweep
 		implicitNames(r)
+		// text that a front end may strip or skip before the first token (byte order mark, no-break and other non-ASCII
+		// blanks, control characters, ordinary white space): when the padded source parses, every span is the span of the
+		// unpadded parse moved by the length of the padding; when it does not, the error positions are checked as usual
+		corpus := gen.Programs()
+		r.Sweep("leading-text-moves-spans", int64(len(corpus)), func(w *run.Worker, item int64) {
+			pr := gen.Print(corpus[item])
+			for _, sep := range []string{" ", ""} {
+				base := pr.Layout(pr.Uniform(sep)).Source
+				for _, pad := range []string{"\ufeff", "\ufeff\n", "\u00a0", "\u2028", "\u200b", "\u3000", "\x0c", "\x0b", "\x00", "\x1a", "\xff\xfe", " ", "\n", "\t\r\n"} {
+					c10Shift(w, base, pad)
+					c10FailOne(w, pad+base)
+					c10FailOne(w, base+pad+"|")
+				}
+			}
+		})
 		// many diagnostics in one multi-line source, each at the first column of its line or after tabs / multi-byte text
 		var ks []int
 		for k := 1; k <= 14; k++ {
@@ -70,7 +85,48 @@ func init() {
 			}
 			return
 		}
+		if v.Check == "error-positions:leading-text" {
+			pad, _ := v.Extra["pad"].(string)
+			c10Shift(w, strings.TrimPrefix(v.Source, pad), pad)
+			return
+		}
 		c10FailOne(w, v.Source)
+	}
+}
+
+// c10Shift: if pad+base parses, its spans are those of base moved by len(pad).
+func c10Shift(w *run.Worker, base, pad string) {
+	src := pad + base
+	w.Begin("error-positions:leading-text", src)
+	var a, b []parser.Statement
+	var ea, eb error
+	if !w.Try(src, func() { a, ea = parser.Parse(base); b, eb = parser.Parse(src) }) {
+		return
+	}
+	if ea != nil || eb != nil {
+		return
+	}
+	w.Nontrivial()
+	type ps struct {
+		path string
+		s    parser.Span
+	}
+	var sa, sb []ps
+	astx.Spans(a, func(path string, s parser.Span) { sa = append(sa, ps{path, s}) })
+	astx.Spans(b, func(path string, s parser.Span) { sb = append(sb, ps{path, s}) })
+	if len(sa) != len(sb) {
+		w.Fail("span:leading-text:tree-differs", src, fmt.Sprintf("%d recorded spans without the leading %q, %d with it", len(sa), pad, len(sb)), map[string]any{"pad": pad})
+		return
+	}
+	for i := range sa {
+		x, y := sa[i].s, sb[i].s
+		if !x.IsValid() && !y.IsValid() {
+			continue
+		}
+		if sa[i].path != sb[i].path || y.Start != x.Start+len(pad) || y.End != x.End+len(pad) {
+			w.Fail("span:leading-text:not-moved", src, fmt.Sprintf("span %s is %v without the leading %q and %v with it (want it moved by %d)", sa[i].path, x, pad, y, len(pad)), map[string]any{"pad": pad})
+			return
+		}
 	}
 }
 
